@@ -119,7 +119,9 @@ func NewDriver(
 	host string,
 	opts ...util.Option,
 ) (*Driver, error) {
-	opts = append(opts, withNetconfConnection(true))
+	// never append to the caller's slice: with spare capacity that would overwrite an element of a
+	// longer slice the caller made from the same backing array.
+	opts = append(append(make([]util.Option, 0, len(opts)+1), opts...), withNetconfConnection(true))
 
 	// create the generic driver just to yoink the transport and channel out of it, by doing this
 	// all the "normal" options get applied, then we just take the parts we care about. we very much
